@@ -157,4 +157,33 @@ theorem positions_eq_populated (h : HeaderReads.HFile) (il : Nat) :
   have hp' : p < h.grid := List.mem_range.mp hp
   simp [List.getD, hp']
 
+/-- the trace count never exceeds the grid size -/
+theorem tracecount_le_grid (stored : List Int) : tracecount stored ≤ stored.length := by
+  unfold tracecount populated
+  exact (List.length_filter_le _ _).trans (by simp)
+
+/-- **ordinals are answered exactly below the trace count**: an ordinal below the trace count maps to a populated slot of
+the grid (inside the grid, non-zero inline number); an ordinal at or beyond it is refused (`none` = IndexError) — never a
+hole, never a slot outside the grid -/
+theorem ordinal_answered_iff (stored : List Int) (i : Nat) :
+    (i < tracecount stored → ∃ p, ordinalToGrid stored i = some p ∧ p < stored.length ∧ stored.getD p 0 ≠ 0)
+    ∧ (tracecount stored ≤ i → ordinalToGrid stored i = none) := by
+  unfold ordinalToGrid tracecount
+  constructor
+  · intro h
+    refine ⟨(populated stored)[i], List.getElem?_eq_getElem h, ?_⟩
+    exact (mem_populated stored _).mp (List.getElem_mem h)
+  · intro h
+    exact List.getElem?_eq_none h
+
+/-- distinct ordinals are distinct traces: the map from ordinals to grid slots is injective and order preserving -/
+theorem ordinal_strictly_increasing (stored : List Int) (i j p q : Nat) (hij : i < j)
+    (hi : ordinalToGrid stored i = some p) (hj : ordinalToGrid stored j = some q) : p < q := by
+  unfold ordinalToGrid at hi hj
+  obtain ⟨hi', rfl⟩ := List.getElem?_eq_some_iff.mp hi
+  obtain ⟨hj', rfl⟩ := List.getElem?_eq_some_iff.mp hj
+  exact List.pairwise_iff_getElem.mp (populated_sorted stored) i j hi' hj' hij
+
+example : tracecount [5, 0, 7, 0] = 2 ∧ ordinalToGrid [5, 0, 7, 0] 1 = some 2 ∧ ordinalToGrid [5, 0, 7, 0] 2 = none := by decide
+
 end Sgz.Props.C08
